@@ -144,6 +144,16 @@ CLAIMED = {
              "over while disconnect() is already running are unconstrained. One fixed defect.",
         ref="§4 C11", technique="symbolic execution of logging path, row construction and writer task (CrossHair + z3, virtual-time loop)", engine="vloop",
     ),
+    "C12": dict(
+        text="NARROW claim. Bounded symbolic execution (CrossHair + z3): (i) for every typed response id on symbolic reply bytes and every symbolic (session, level) the "
+             "client's ECU.update_state and the replaying server's update_state yield equal states (the presupposition of the property); (ii) the real "
+             "DBUDSServer.respond_after_default against a scripted connection with symbolic selection flags, state, cursor and row: the query parameters are exactly "
+             "(ecu?, state values, properties, request hex, cursor), the cursor advances to the served row, a NULL reply resets the state and stays silent, the "
+             "wrap-around query is issued iff the first returned nothing, the recorded reply bytes are replayed exactly.",
+        note="NOT claimed: which row sqlite selects (JSON state match, ordering, joins over runs/ECUs) - evaluated by compiled sqlite3, cannot be encoded; end-to-end "
+             "replay fidelity is therefore outside. One recorded known finding (client tracks the session from 62 f1 86 replies, the server does not).",
+        ref="§4 C12", technique="symbolic execution of state tracking and replay cursor logic (CrossHair + z3)",
+    ),
     "C02": dict(
         text="Bounded symbolic execution (CrossHair + z3) of the real UDSResponse.parse_dynamic / from_pdu / pdu code: for every first byte "
              "0x00-0xFF and every total length in the stated bound, with all remaining bytes symbolic, every path is explored and the "
